@@ -19,6 +19,7 @@ mod c05;
 mod c03;
 mod c08;
 mod c11;
+mod c07;
 
 use std::path::PathBuf;
 
@@ -86,6 +87,8 @@ fn main() {
         "c03" => c03::run(&args),
         "c08" => c08::run(&args),
         "c11" => c11::run(&args),
+        "c07" => c07::run(&args),
+        "parse" => c07::parse_command(&args.extra[0]),
         "c06" => c06::run(&args),
         "c16" => c16::run(&args),
         "c10" => c10::run(&args),
